@@ -52,6 +52,10 @@ def _build1(_f, _d, _na, _ex):
     return _inner1(_f, _d, _na, _ex)
 
 
+def ucat(s):
+    return s.astype(str).str.upper()
+
+
 def uf(x):
     if np.any(np.asarray(x) == 777.0):
         raise ValueError("uf: marker value")
@@ -72,7 +76,10 @@ def make_client(spec, idx, ns_extra=None):
     # a module-like object bound to the SAME name in every client, with different behaviour per client
     ns["tools"] = types.SimpleNamespace(
         f=lambda x, _k=k: x * _k,
-        sub=types.SimpleNamespace(g=lambda x, _k=k: np.abs(x) + _k),
+        sub=types.SimpleNamespace(
+            g=lambda x, _k=k: np.abs(x) + _k,
+            deep=types.SimpleNamespace(er=types.SimpleNamespace(h=lambda x, _k=k: x - _k)),
+        ),
     )
     exec(compile(CLIENT_SRC, f"<client{idx}>", "exec"), ns)
     extra = spec.get("extra")
